@@ -13,7 +13,7 @@ import (
 )
 
 func init() {
-	props["C08"] = &propDef{run: runC08, explanation: "Partial: end-to-end acceptance of client-built requests and 'yields the requested document' are behavioural and NOT decided. Decided statically (necessary conditions): (X1) each builder signs / serialises values of exactly the named types the parser decodes into, so member names agree by construction; (X2) the client's signer-header whitelist equals the parser's ({alg,kid}); (P1) in every builder the delta hash is CalculateModelMultihash of the very delta object placed in the request, with the caller's multihash code, and that value is what is signed / put in the suffix data; all four builders return the canonical encoding of the request object; (G1) builders refuse unacceptable inputs — create: document xor patches, valid multihash code, both commitments computed with that code, distinct commitments; update/recover: key present and valid, key-reuse check against the next commitment, signer checks; deactivate: signer checks; (P2) GetAnchoredOperation rebuilds the per-type request from the parsed model field by field and returns its canonical encoding with type, suffix and anchor origin; (P3) the Sidetree client derives the reveal value from the signer's public key with the code of the operation commitment, uses the signer's key as update/recovery key, derives next commitments from the next keys with the configured algorithm and passes the signer through; (O1) createUpdatePatches never emits a remove-* patch after an add-* patch. (E1) the request-document builders (PopulateRaw*, Doc.JSONBytes) do not write through their inputs. (K3) member names of all request and signed-data models are the wire format's; the did suffix is the text after the last ':'; the raw key carries exactly one key representation on every accepting path; builder options are found by type. An unnamed anchor origin stays absent; every accepting exit of Doc.JSONBytes depends on every field of Doc; each service member is copied under conditions on itself only. All of C16 runs inside this check; With… options store their argument unconditionally; update-patch builders hand values on as they are. Fresh request body per HTTP attempt; a named anchor origin reaches the request info."}
+	props["C08"] = &propDef{run: runC08, explanation: "Partial: end-to-end acceptance of client-built requests and 'yields the requested document' are behavioural and NOT decided. Decided statically (necessary conditions): (X1) each builder signs / serialises values of exactly the named types the parser decodes into, so member names agree by construction; (X2) the client's signer-header whitelist equals the parser's ({alg,kid}); (P1) in every builder the delta hash is CalculateModelMultihash of the very delta object placed in the request, with the caller's multihash code, and that value is what is signed / put in the suffix data; all four builders return the canonical encoding of the request object; (G1) builders refuse unacceptable inputs — create: document xor patches, valid multihash code, both commitments computed with that code, distinct commitments; update/recover: key present and valid, key-reuse check against the next commitment, signer checks; deactivate: signer checks; (P2) GetAnchoredOperation rebuilds the per-type request from the parsed model field by field and returns its canonical encoding with type, suffix and anchor origin; (P3) the Sidetree client derives the reveal value from the signer's public key with the code of the operation commitment, uses the signer's key as update/recovery key, derives next commitments from the next keys with the configured algorithm and passes the signer through; (O1) createUpdatePatches never emits a remove-* patch after an add-* patch. (E1) the request-document builders (PopulateRaw*, Doc.JSONBytes) do not write through their inputs. (K3) member names of all request and signed-data models are the wire format's; the did suffix is the text after the last ':'; the raw key carries exactly one key representation on every accepting path; builder options are found by type. An unnamed anchor origin stays absent; every accepting exit of Doc.JSONBytes depends on every field of Doc; each service member is copied under conditions on itself only. All of C16 runs inside this check; With… options store their argument unconditionally; update-patch builders hand values on as they are. Fresh request body per HTTP attempt; a named anchor origin reaches the request info. One raw entry per supplied key / service / URI."}
 }
 
 func (c *Ctx) unmarshalTargetType(f *ssa.Function) types.Type {
@@ -313,6 +313,19 @@ func runC08(c *Ctx) {
 				}
 			}
 		})
+		// or the set is made by a helper without parameters that hands back the map it fills with constants
+		if len(keys) == 0 {
+			for _, g := range c.helpersOf(vs, 1) {
+				if len(g.Params) != 0 || len(returnsOf(g)) != 1 {
+					continue
+				}
+				if mm, isMM := stripConv(returnsOf(g)[0].Results[0]).(*ssa.MakeMap); isMM && len(returnsOf(g)[0].Results) == 1 {
+					if ks, lit := c.mapLiteralKeys(mm); lit && len(ks) > 0 {
+						keys = ks
+					}
+				}
+			}
+		}
 		// or a slice literal searched with a membership function
 		if len(keys) == 0 {
 			forEachInstr(vs, func(in ssa.Instruction) {
@@ -639,17 +652,46 @@ func runC08(c *Ctx) {
 				// the two next commitments, each from its own next key (computed here or in a helper that was rendered inline)
 				okN := len(ft["RecoveryCommitment"]) == 1 && len(ft["UpdateCommitment"]) == 1 &&
 					((commitmentOf(ft["RecoveryCommitment"][0], opts, "NextRecoveryPublicKey", mh) && commitmentOf(ft["UpdateCommitment"][0], opts, "NextUpdatePublicKey", mh)) ||
-						(strings.HasSuffix(ft["RecoveryCommitment"][0], "#0") && strings.HasSuffix(ft["UpdateCommitment"][0], "#1") && c.Fn(pST, "getCommitment") != nil))
+						(strings.HasSuffix(ft["RecoveryCommitment"][0], "#0") && strings.HasSuffix(ft["UpdateCommitment"][0], "#1") && c.Fn(pST, "getCommitment") != nil) ||
+						// (the helper hands the pair back as a small struct: each field read where its commitment goes; which field
+						// holds which commitment is decided on the helper, below)
+						(c.Fn(pST, "getCommitment") != nil && strings.Contains(ft["RecoveryCommitment"][0], "getCommitment(") && strings.Contains(ft["UpdateCommitment"][0], "getCommitment(") &&
+							c.commitmentPairField(ft["RecoveryCommitment"][0]) == "recovery" && c.commitmentPairField(ft["UpdateCommitment"][0]) == "update"))
 				c.Check("C08.P3", "recover:next-commitments", okN, a.Pos(), fmt.Sprintf("next commitments = %v / %v", ft["RecoveryCommitment"], ft["UpdateCommitment"]))
 			}
 		}
 	}
 	if gc := c.Fn(pST, "getCommitment"); gc != nil {
 		var rets [][]string
+		opts, mh := optsOf(gc)
+		c.pairFields = map[string]string{}
 		for _, r := range successReturns(gc) {
+			// the pair as a result struct: the field that holds each commitment
+			if ld, isLd := r.Results[0].(*ssa.UnOp); isLd && len(r.Results) == 2 {
+				if al, isAl := ld.X.(*ssa.Alloc); isAl {
+					ft := c.fieldTable(al, nil)
+					rec, upd := "", ""
+					for fld, vs := range ft {
+						if len(vs) != 1 {
+							continue
+						}
+						if commitmentOf(vs[0], opts, "NextRecoveryPublicKey", mh) {
+							rec = vs[0]
+							c.pairFields[fld] = "recovery"
+						}
+						if commitmentOf(vs[0], opts, "NextUpdatePublicKey", mh) {
+							upd = vs[0]
+							c.pairFields[fld] = "update"
+						}
+					}
+					if len(ft) == 2 {
+						rets = append(rets, []string{rec, upd})
+						continue
+					}
+				}
+			}
 			rets = append(rets, []string{c.Path(r.Results[0], nil), c.Path(r.Results[1], nil)})
 		}
-		opts, mh := optsOf(gc)
 		ok := len(rets) == 1 && opts != "" && commitmentOf(rets[0][0], opts, "NextRecoveryPublicKey", mh) && commitmentOf(rets[0][1], opts, "NextUpdatePublicKey", mh)
 		c.Check("C08.P3", "recover:getCommitment", ok, gc.Pos(), fmt.Sprintf("next (recovery, update) commitments = %v", rets))
 	}
@@ -833,6 +875,71 @@ func runC08(c *Ctx) {
 	}
 	c.docBytesRule("C08.P3")
 	c.rawServiceRule("C08.P3")
+	// every key, service and also-known-as URI the caller supplies reaches the raw document: the three PopulateRaw…
+	// functions produce one raw entry per entry of their list, on every iteration (a list "tidied" on the way — repeated
+	// or similar entries dropped — builds a request for another document than the one supplied)
+	for _, pn := range []string{"PopulateRawPublicKeys", "PopulateRawServices", "PopulateRawAlsoKnownAs"} {
+		pf := c.Fn(pST+"/doc", pn)
+		if pf == nil {
+			c.Unresolved("C08.P3", "doc."+pn)
+			continue
+		}
+		c.Analysed(pf)
+		n := 0
+		var bad []string
+		for _, h := range append([]*ssa.Function{pf}, c.helpersOf(pf, 1)...) {
+			for _, l := range naturalLoops(h) {
+				// the loop over the list parameter: its index addresses the parameter
+				overParam := false
+				for b := range l.blocks {
+					for _, in := range b.Instrs {
+						switch x := in.(type) {
+						case *ssa.IndexAddr:
+							if _, isP := rootOf(x.X).(*ssa.Parameter); isP && c.Path(x.Index, nil) == "ι" {
+								overParam = true
+							}
+						case *ssa.Index:
+							if _, isP := rootOf(x.X).(*ssa.Parameter); isP && c.Path(x.Index, nil) == "ι" {
+								overParam = true
+							}
+						}
+					}
+				}
+				if !overParam {
+					continue
+				}
+				produced := 0
+				for b := range l.blocks {
+					for _, in := range b.Instrs {
+						isOut := false
+						switch x := in.(type) {
+						case *ssa.Call:
+							if bi, isB := x.Call.Value.(*ssa.Builtin); isB && bi.Name() == "append" {
+								isOut = true
+							}
+						case *ssa.Store:
+							if ia, isIA := x.Addr.(*ssa.IndexAddr); isIA && c.Path(ia.Index, nil) == "ι" {
+								if _, isMS := rootOf(ia.X).(*ssa.MakeSlice); isMS {
+									isOut = true
+								}
+							}
+						}
+						if !isOut {
+							continue
+						}
+						produced++
+						if !everyIterationOf(l, b) {
+							bad = append(bad, fmt.Sprintf("%s: %s produces a raw entry only under a condition", c.pos(in.Pos()), short(h.String())))
+						}
+					}
+				}
+				if produced > 0 {
+					n++
+				}
+			}
+		}
+		c.Check("C08.P3", pn+":one-raw-entry-per-entry", n >= 1 && len(bad) == 0, pf.Pos(), fmt.Sprintf("%s: %d loop(s) over the supplied list, each producing an entry on every iteration", pn, n), bad...)
+	}
 	// the document the caller supplies reaches the request as it is: member values never take the place of a format
 	// string (a '%' in a custom member), and the update-patch builders hand the caller's strings on as they are — the
 	// libraries their call tree reaches are the JSON codec, fmt, errors and module code (a URI re-serialised by net/url
@@ -924,7 +1031,7 @@ func runC08(c *Ctx) {
 		}
 		c.Check("C08.P3", "options:store-what-they-are-given", n >= 20 && len(bad) == 0, 0, fmt.Sprintf("%d With… options of the request builders; each stores its argument without consulting the options' current content", n), bad...)
 	}
-	c.Min("C08.P3", 9+3+2+3+7+2+1+2+1)
+	c.Min("C08.P3", 9+3+2+3+7+2+1+2+1+3)
 
 	// ---- O1 remove-before-add
 	cup := c.Fn(pST, "createUpdatePatches")
@@ -1321,6 +1428,18 @@ func (c *Ctx) rawServiceRule(rule string) {
 	loopControl := regexp.MustCompile(`^\((len\(.*\) <= ι|ι < len\(.*\)|\d+ <= ι|ι < \d+)\)=true$`)
 	n := 0
 	hosts := append([]*ssa.Function{f}, c.helpersOf(f, 1)...)
+	// (the per-service builder handed, as a function value, to a generic "convert every element" helper)
+	forEachInstr(f, func(in ssa.Instruction) {
+		if cl, ok := in.(*ssa.Call); ok {
+			for _, a := range cl.Call.Args {
+				if _, isSig := a.Type().Underlying().(*types.Signature); isSig {
+					if g := funcValueOf(a); g != nil && inModule(g) && g.Blocks != nil && pkgPathOf(g) == pkgPathOf(f) {
+						hosts = append(hosts, g)
+					}
+				}
+			}
+		}
+	})
 	for _, h := range hosts {
 		forEachInstr(h, func(in ssa.Instruction) {
 			mu, ok := in.(*ssa.MapUpdate)
@@ -1452,4 +1571,34 @@ func (c *Ctx) builderCallSequence(cup *ssa.Function) ([]string, bool) {
 		return nil, false
 	}
 	return kinds, true
+}
+
+// commitmentPairField: which commitment the field read by path p (…getCommitment(…)#0.<field>) holds, as decided on
+// getCommitment's result literal ("" when unknown).
+func (c *Ctx) commitmentPairField(p string) string {
+	i := strings.LastIndex(p, ".")
+	if i < 0 {
+		return ""
+	}
+	if c.pairFields == nil {
+		// (decided on first use: the helper's success return hands back a struct literal)
+		c.pairFields = map[string]string{}
+		if gc := c.Fn("vdr/sidetreelongform/sidetree", "getCommitment"); gc != nil {
+			for _, r := range successReturns(gc) {
+				if ld, isLd := r.Results[0].(*ssa.UnOp); isLd {
+					if al, isAl := ld.X.(*ssa.Alloc); isAl {
+						for fld, vs := range c.fieldTable(al, nil) {
+							if len(vs) == 1 && strings.Contains(vs[0], "NextRecoveryPublicKey") && !strings.Contains(vs[0], "NextUpdatePublicKey") {
+								c.pairFields[fld] = "recovery"
+							}
+							if len(vs) == 1 && strings.Contains(vs[0], "NextUpdatePublicKey") && !strings.Contains(vs[0], "NextRecoveryPublicKey") {
+								c.pairFields[fld] = "update"
+							}
+						}
+					}
+				}
+			}
+		}
+	}
+	return c.pairFields[p[i+1:]]
 }
